@@ -111,7 +111,7 @@ func genEvalCache(g *gen) {
 			g.emit("S commit %s %s %s 0 %d %d %d", c, gr, hexName("t"), 60+order, order, -2000+order*500)
 			g.emit("S broker %s %s 0 2 %d 1", c, hexName("t"), 7000+order)
 			g.emit("S cage 30008")
-			g.emit("S cqdup %s %s 1", c, gr)
+			g.emit("S cqdup %s %s %d %d", c, gr, g.intn(2), g.intn(2))
 		}
 	}
 }
